@@ -591,7 +591,7 @@ func (g *c08Gen) step() pstep {
 	case 5:
 		return pstep{kind: "sub", sub: &rv{kind: "int", i: g.rg.intn(9) - 1}}
 	case 6:
-		return pstep{kind: "sub", sub: &rv{kind: "str", s: g.rg.pick([]string{"a", "k", "Name", "1", "zz"})}}
+		return pstep{kind: "sub", sub: &rv{kind: "str", s: g.rg.pick([]string{"a", "k", "Name", "1", "zz", "hidden", "Items", "Sub", "Greet"})}}
 	}
 	return pstep{kind: "sub", sub: rvEmpty}
 }
@@ -660,10 +660,12 @@ func runC08(r *run) {
 			emit(caseT{"shadow", (&world{}).args(src, gctx{{"v", mk(3)}})})
 		}
 		// shadowing: tag-set names over context keys over globals
-		w := &world{globals: gctx{{"g", gStr("G")}, {"x", gStr("GX")}, {"y", gStr("GY")}, {"nv", gStr("GNV")}, {"gm", gMap([]string{"k"}, []*gval{gStr("GK")})}}}
+		w := &world{files: []map[string]string{{"inc.tpl": "<{{ x }},{{ y }},{{ g }}>"}}, globals: gctx{{"g", gStr("G")}, {"x", gStr("GX")}, {"y", gStr("GY")}, {"nv", gStr("GNV")}, {"gm", gMap([]string{"k"}, []*gval{gStr("GK")})}}}
 		ctx := gctx{{"x", gStr("CX")}, {"nv", gNil()}, {"gm", gNil()}}
 		for _, c := range [][2]string{{"{{ g }}{{ x }}{{ y }}", "GCXGY"}, {"{% set x = \"SX\" %}{{ x }}{{ y }}", "SXGY"}, {"{% with y=\"WY\" %}{{ x }}{{ y }}{% endwith %}{{ y }}", "CXWYGY"},
 			{"{% for g in \"ab\" %}{{ g }}{% endfor %}{{ g }}", "abG"},
+			{"{% with x=\"WX\" %}{% include \"inc.tpl\" %}{% endwith %}{% for y in \"pq\" %}{% include \"inc.tpl\" %}{% endfor %}{% set g = \"SG\" %}{% include \"inc.tpl\" %}{% ssi \"inc.tpl\" parsed %}", "<WX,GY,G><CX,p,G><CX,q,G><CX,GY,SG><CX,GY,SG>"},
+			{"{% macro m(x) %}{% include \"inc.tpl\" %}{% endmacro %}{{ m(\"MX\") }}", "<MX,GY,G>"},
 			{"[{{ nv }}][{{ nv.name }}][{{ gm.k }}]{% if nv %}T{% else %}F{% endif %}{% if gm %}T{% else %}F{% endif %}", "[][][]FF"}, {"{% macro m(x) %}{{ x }}{{ y }}{% endmacro %}{{ m(\"MX\") }}{{ x }}", "MXGYCX"}} {
 			a := w.args(c[0], ctx)
 			a = append(a, "-", "-", hx(c[1]))
